@@ -21,37 +21,37 @@ NA = {
 CHECKS = {
  "C16": dict(
    level="exploration", design_ref="DESIGN.md 3.1",
-   text="Seeded simulated histories (OBSERVE ops that must be invisible, EDIT ops, saves at seeded points, failed saves injected at table.compile and at the destination stream) on real TTFont objects over simulator-owned streams, clock and environment, each compared byte-for-byte with a fresh edit-only replica; second-save and dump-stability oracles; clock regimes incl. TTC; pipeline catalogue re-run in fresh interpreters under several PYTHONHASHSEED values. Sampling, not proof: a clean batch is evidence over the histories explored.",
-   note="Trusted: the harness-side sfnt reader (oracles/container.py) used to name differing tables; gen-2 corpus inputs computed on the same tree; CPython, zlib, brotli as installed. Inputs are the vendored corpus, not generated fonts.",
+   text="Seeded simulated histories (OBSERVE ops that must be invisible, EDIT ops, saves at seeded points incl. WOFF sessions, failed saves injected at table.compile and at the destination stream) on real TTFont and TTCollection objects over simulator-owned streams, clock and environment, each compared byte-for-byte with a fresh edit-only replica; observe-only, second-save and dump-stability oracles; clock regimes incl. a member saved after its collection; a catalogue of 21 pipelines (recompile, TTX, feature files incl. generated ones, subset, instancer, mutator, varLib.build, merge, CFF conversions, WOFF2, ttx -m, feature variations ...) re-run in fresh interpreters under several PYTHONHASHSEED values and after recorded prefixes of other runs (process-history independence); determinism self-test mismatches are turned into such histories. Sampling, not proof: a clean batch is evidence over the histories explored.",
+   note="Trusted: the harness-side sfnt reader (oracles/container.py) used to name differing tables; gen-2 corpus inputs computed on the same tree; CPython, zlib, brotli as installed. The replica copies the decoded-table sets of the observed font (known findings K1/K2), so a recalculation that silently depends on what is decoded is C04's to see, not this check's.",
    technique="deterministic simulation: seeded operation/fault histories vs fresh-replica reference model, hash-seed and clock replicas"),
  "C20": dict(
    level="fault_enumeration", design_ref="DESIGN.md 3.2",
    text="Storage-fault enumeration on stored font images (every truncation length of small fonts, every header/directory byte x {00, FF, bit flips}, torn and zero-filled images, garbage), undecodable-payload injection per table with ignoreDecompileErrors, compile failure injected at every loaded table during save to an existing path (TTFont, TTCollection, CLI wrappers), and hostile text values run under an audit-hook + file-system monitor.",
-   note="Trusted: audit hooks see every exec/compile/import/open; the independent sfnt re-packer; canary families are finite. Extension buckets (TTC/WOFF2 truncation) are observed, not judged.",
+   note="Trusted: audit hooks see every exec/compile/import/open; the independent sfnt re-packer; canary families are finite (expression, format-string, import, entity and path-traversal families incl. balanced and exactly-deep-enough ones). Extension buckets (TTC/WOFF2 truncation) are observed, not judged. Damaged tables shared by collection members are judged for the tables outside findings K3-K7.",
    technique="deterministic simulation: enumerated storage faults, crash points at table.compile, audit-hook monitor for hostile text"),
  "C19": dict(
    level="exploration", design_ref="DESIGN.md 3.3",
-   text="Stateful simulation of UFOWriter/UFOReader/GlyphSet, DesignSpaceDocument and plist round trips over an in-memory, optionally case-insensitive file system with seeded listdir order, against dict reference models, with close/reopen as restart and invariants on file names after every step.",
+   text="Stateful simulation of UFOWriter/UFOReader/GlyphSet, DesignSpaceDocument and plist round trips over an in-memory, optionally case-insensitive file system with seeded listdir order (plus the real OSFS and zip backends), against dict reference models, with close/reopen as restart, failing glyph writes (draw callback raising, disk full) as faults, invariants on file names after every step, withdrawn attributes judged as gone, and in-place edits of axis maps against a fresh-axis replica.",
    note="Trusted: SimFS implements the FS interface faithfully (cross-checked against OSFS on a sample); generators produce spec-valid records by construction.",
    technique="deterministic simulation: seeded stateful histories over a simulated file system vs dict reference model"),
  "C01": dict(
    level="exploration", design_ref="DESIGN.md 3.4",
-   text="Corpus sweep under simulated configurations: every corpus font behind seekable/unseekable/short-reading streams or a scratch path, lazy in {None,True,False}, seeded touch sets and orders; untouched tables must pass through byte-for-byte (against an independent tag->bytes reader), the loaded set must stay within a dependency closure, touched tables must keep their content, and gen-2 must equal gen-1.",
-   note="Inputs are the vendored corpus only (no generation: not this technique). fontTools' own toXML is trusted as a content comparator.",
+   text="Corpus sweep under simulated configurations: every corpus font (binaries, containers, the fonts the corpus TTX files compile to, and the table samples embedded in the table unit tests carried by a small font) behind seekable/unseekable/short-reading streams or a scratch path, lazy in {None,True,False}, seeded touch sets and orders; untouched tables must pass through byte-for-byte (against an independent tag->bytes reader), the loaded set must stay within a dependency closure, touched tables must keep their content, and gen-2 must equal gen-1. Sources are also presented as another conforming writer stores them (oracles/foreign.py, container.foreign_variant: undecodable cmap subtables, unsorted coverage, long loca, component flags, roomy bboxes, post 2.0 oddities, VDMX/hdmx/LTSH). Violations that depend on what the worker process ran before are replayed with the recorded schedule.",
+   note="fontTools' own toXML is trusted as a content comparator (fields the compiler recalculates are masked narrowly). The independent writers are written from the specification and cross-checked with HarfBuzz / fontTools' reader.",
    technique="deterministic simulation: seeded configuration/access-order sweep vs tag->bytes reference model"),
  "C03": dict(
    level="exploration", design_ref="DESIGN.md 3.5",
-   text="TTX import under simulated delivery schedules: seeded read sizes and short reads, BUFSIZE in {1..0x4000}, text vs binary streams, LF/CRLF/CR, split dumps; all deliveries must import to byte-identical fonts and reproduce the table bytes of the source object model.",
-   note="Inputs are the vendored corpus only. expat and lxml as installed.",
+   text="TTX import under simulated delivery schedules: seeded read sizes and short reads, BUFSIZE in {1..0x4000}, text vs binary streams, LF/CRLF/CR, split dumps, tables/skipTables selections merged onto the source font; all deliveries must import to byte-identical fonts and reproduce the table bytes of the source object model (free text after white-space normalisation, in free-text tables only); tables a merge did not import pass through untouched; a damaged table kept raw in ttx's default mode comes back as the same bytes. Inputs: corpus binaries, TTX-derived fonts, table samples of the unit tests, generated fonts with hostile glyph names / boundary instruction operands / cmap 14, foreign-writer variants, and EDITs (names, fixed-point values, glyph order, empty programs).",
+   note="expat and lxml as installed.",
    technique="deterministic simulation: stream-delivery schedules (short reads, chunk boundaries) with byte-equality oracle"),
  "C04": dict(
    level="exploration", design_ref="DESIGN.md 3.6",
-   text="Invariant monitor: every file written in seeded save configurations (flavour x reorderTables x recalcBBoxes x glyf padding x TTC sharing x destination kind) is re-parsed by an independent sfnt/TTC/WOFF/WOFF2 reader and its derived fields are recomputed by an independent glyf parser.",
-   note="WOFF2 glyf reconstruction is trusted to fontTools; rules limited to what is certain and silent on the pinned corpus.",
+   text="Invariant monitor: every file written in seeded save configurations (flavour x WOFF2 transform set x reorderTables x recalcBBoxes x glyf padding x TTC sharing x destination kind), after seeded edits, after save-reopen-save and save-edit-save on one object, from sources as another writer stores them, and by the pipelines, is re-parsed by an independent sfnt/TTC/WOFF/WOFF2 reader; its derived fields (glyph and font bboxes, maxp, hhea/vhea extents and metric counts, loca, OS/2 character range, CFF font bbox) are recomputed from the saved data; a WOFF2's decoded loca is read against the format its head announces; flavour changes are compared table by table.",
+   note="WOFF2 glyf reconstruction, the cmap decoder (for the OS/2 range) and the charstring interpreter (for the CFF bbox) are fontTools' own, applied to the saved file; the glyf/loca/hmtx/maxp recomputation is independent.",
    technique="deterministic simulation: configuration sweep with independent container/derived-field validator as invariant"),
  "C06": dict(
    level="fault_enumeration", design_ref="DESIGN.md 3.7",
-   text="Fault injection at the HarfBuzz repacker seam (RepackerError/MemoryError/ValueError at every attempt index), repacker modes, compaction levels and second compiles; all serialisation paths must shape identically under HarfBuzz, generated overflow tables must shape to the dict they were built from.",
+   text="Fault injection at the HarfBuzz repacker seam (RepackerError/MemoryError/ValueError at every attempt index), repacker modes, compaction levels and second compiles; all serialisation paths must shape identically under HarfBuzz - at the design size, at 12 ppem (device tables) and off the default location (variation indices) - for corpus fonts, corpus and generated feature files, and generated overflow tables (pair, class, ligature, multiple, alternate, single-pos, mark-base, many lookups, mixed subtable formats, unsorted coverage from the independent writer) that must shape to the dict they were built from.",
    note="HarfBuzz (uharfbuzz) is the trusted shaping oracle.",
    technique="deterministic simulation: fault enumeration at the repacker seam, shaping oracle"),
 }
